@@ -7,10 +7,19 @@ identifier bookkeeping after the `repo_fixes/C10-*.diff` patches).  Definitions 
 
 A *container* is a glyph or the font (`World.conts`); `g.reg` is its `identifiers` set,
 `g.carried` the identifiers read off the contours, points, components, anchors and guidelines that
-are in it.  `run {} ops` is the world after the operation sequence `ops` (any of the 60 kinds of
+are in it.  `run {} ops` is the world after the operation sequence `ops` (any of the 62 kinds of
 operation of `Ident.Op`, any arguments, any length).
+
+Round 3: a glyph read from a GLIF (`reopen`), or fed the serialisation of such a glyph, holds its contours
+in the lazily loaded *shallow* form (`g.shallow`): recorded pen calls whose identifiers are reserved in
+`g.reg`.  `g.contours` then are those records, and `g.carried` counts their identifiers as in use.
+`step w op = stepL (preload w op) op`: every operation first loads (`deepen`) the glyphs whose contours it
+looks at, exactly where the code does (`preload`); drawing into a shallow glyph loads it at the first
+`endPath` (`penEnd`); `setDataFromSerialization` of a shallow source makes the target shallow.  Every
+theorem of sections 1-2 and 4-5 is stated over `step` / `run` and therefore covers every operation as the
+FIRST touch of a shallow glyph; section 3 is restated "up to loading", section 6 is new.
 -/
-import DefconModel.Lemmas.IdentLeak
+import DefconModel.Lemmas.IdentShallow
 
 namespace DefconModel.Props.C10
 open DefconModel DefconModel.Ident
@@ -242,112 +251,26 @@ theorem setIdent_reject_unchanged (cur : Option Id) (reg : List Id) (v : Option 
 /-- `reject_unchanged`: when an operation that introduces a single object or a single identifier
 (insertion or re-insertion of a contour, point, component, anchor or guideline; an identifier
 setter; `generateIdentifier*`) is rejected with an AssertionError, the whole world — every
-container's objects and registry, and the limbo of detached objects — is exactly what it was. -/
+container's objects and registry, and the limbo of detached objects — is exactly what it was once
+the glyphs the operation looks at first were loaded (`preload`: `insertContour` asks
+`contour not in self` before it checks anything, so a glyph whose contours were still shallow is
+loaded even when the contour is rejected) … -/
 theorem reject_unchanged (w : World) (op : Op) (hs : Op.single op = true)
+    (h : (step w op).2 = .err .assertion) : (step w op).1 = preload w op :=
+  stepL_reject_unchanged (preload w op) op hs h
+
+/-- … which no observer can tell from the world before the call: in every reachable world (any
+world satisfying the invariant) the world after a rejected single-object operation holds the same
+objects and registers the same identifiers, container by container, as the world before it. -/
+theorem reject_unchanged_observably (w : World) (hw : WInv w) (op : Op) (hs : Op.single op = true)
+    (h : (step w op).2 = .err .assertion) : ((step w op).1).Same w := by
+  rw [reject_unchanged w op hs h]; exact preload_same hw op
+
+/-- … and when every glyph's contours are loaded already (the setting of rounds 1 and 2) it IS the
+world before the call. -/
+theorem reject_unchanged_loaded (w : World) (hl : w.Loaded) (op : Op) (hs : Op.single op = true)
     (h : (step w op).2 = .err .assertion) : (step w op).1 = w := by
-  cases op <;> simp only [Op.single] at hs <;> try (exact absurd hs (by decide))
-  case insContour t r c =>
-    exact on_unchanged w t _ (fun h' => insertContour_reject_unchanged _ _ _ (by rw [h']; simp)) h
-  case reinsContour t r k =>
-    simp only [step] at h ⊢
-    repeat' split
-    all_goals first | rfl | (rename_i heq; simp_all)
-  case insPoint t rc rp p =>
-    simp only [step] at h ⊢
-    split
-    · rfl
-    · rename_i ci hci
-      simp only [hci] at h
-      exact on_unchanged w t _ (insertPoint_unchanged _ _ _ _) h
-  case addPoint t rc p =>
-    simp only [step] at h ⊢
-    split
-    · rfl
-    · rename_i ci hci
-      simp only [hci] at h
-      exact on_unchanged w t _ (insertPoint_unchanged _ _ _ _) h
-  case setContourId t rc v =>
-    simp only [step] at h ⊢
-    split
-    · rfl
-    · rename_i ci hci
-      simp only [hci] at h
-      exact on_unchanged w t _ (setter_unchanged _ _ _).1 h
-  case genContourId t rc cands =>
-    simp only [step] at h ⊢
-    split
-    · rfl
-    · rename_i ci hci
-      simp only [hci] at h
-      exact on_unchanged w t _ (gen_unchanged _ _ 0 _).1 h
-  case genPointId t rc rp cands =>
-    simp only [step] at h ⊢
-    split
-    · rfl
-    · rename_i ci hci
-      simp only [hci] at h
-      split
-      · rfl
-      · rename_i pi hpi
-        simp only [hpi] at h
-        exact on_unchanged w t _ (gen_unchanged _ _ _ _).2.1 h
-  case insComp t r k => exact on_unchanged w t _ (claim_unchanged _ _ _ none).1 h
-  case reinsComp t r k =>
-    simp only [step] at h ⊢
-    repeat' split
-    all_goals first | rfl | (rename_i heq; simp_all)
-  case setCompId t r v =>
-    simp only [step] at h ⊢
-    split
-    · rfl
-    · rename_i ci hci
-      simp only [hci] at h
-      exact on_unchanged w t _ (setter_unchanged _ _ _).2.1 h
-  case genCompId t r cands =>
-    simp only [step] at h ⊢
-    split
-    · rfl
-    · rename_i ci hci
-      simp only [hci] at h
-      exact on_unchanged w t _ (gen_unchanged _ _ 0 _).2.2.1 h
-  case insAnchor t r v d => exact on_unchanged w t _ (claim_unchanged _ _ ⟨0, none⟩ _).2.1 h
-  case reinsAnchor t r k =>
-    simp only [step] at h ⊢
-    repeat' split
-    all_goals first | rfl | (rename_i heq; simp_all)
-  case setAnchorId t r v =>
-    simp only [step] at h ⊢
-    split
-    · rfl
-    · rename_i ci hci
-      simp only [hci] at h
-      exact on_unchanged w t _ (setter_unchanged _ _ _).2.2.1 h
-  case genAnchorId t r cands =>
-    simp only [step] at h ⊢
-    split
-    · rfl
-    · rename_i ci hci
-      simp only [hci] at h
-      exact on_unchanged w t _ (gen_unchanged _ _ 0 _).2.2.2.1 h
-  case insGuide t r v d => exact on_unchanged w t _ (claim_unchanged _ _ ⟨0, none⟩ _).2.2 h
-  case reinsGuide t r k =>
-    simp only [step] at h ⊢
-    repeat' split
-    all_goals first | rfl | (rename_i heq; simp_all)
-  case setGuideId t r v =>
-    simp only [step] at h ⊢
-    split
-    · rfl
-    · rename_i ci hci
-      simp only [hci] at h
-      exact on_unchanged w t _ (setter_unchanged _ _ _).2.2.2 h
-  case genGuideId t r cands =>
-    simp only [step] at h ⊢
-    split
-    · rfl
-    · rename_i ci hci
-      simp only [hci] at h
-      exact on_unchanged w t _ (gen_unchanged _ _ 0 _).2.2.2.2 h
+  rw [reject_unchanged w op hs h]; exact preload_of_loaded hl op
 
 -- non-vacuity: a rejected insertion (identifier 1 is taken) and a rejected setter
 example : (step (run {} [.insAnchor 0 0 (some 1) true]) (.insContour 0 0 ⟨some 2, [⟨.line, some 1⟩]⟩)).2
@@ -361,24 +284,27 @@ example : (step (run {} [.insAnchor 0 0 (some 1) true, .insGuide 0 0 none false]
 `removeComponent` / `removeAnchor` / `removeGuideline` with an object that is not in the container
 (a point of a sibling contour, the Point object that `reverse()` replaced, an object that was removed
 before, an object of another glyph), or the insertion of an anchor / guideline dict whose colour is
-not a colour — answers with an error and leaves the whole world exactly as it was: no identifier is
-freed although the stranger carries it, none is registered although the dict names one. -/
+not a colour — answers with an error and leaves the whole world exactly as it was once the glyphs it
+looks at first were loaded (`removeContour` asks `contour not in self`, which loads a shallow glyph
+before the stranger is refused): no identifier is freed although the stranger carries it, none is
+registered although the dict names one. -/
 theorem refused_unchanged (w : World) (op : Op) (h : Op.refused op = true) :
-    (step w op).1 = w ∧ ∃ e, (step w op).2 = .err e := by
-  cases op <;> simp only [Op.refused] at h <;> try (exact absurd h (by decide))
-  case insAnchorBad t r v => exact ⟨rfl, _, rfl⟩
-  case insGuideBad t r v => exact ⟨rfl, _, rfl⟩
-  all_goals
-    simp only [step]
-    repeat' split
-  all_goals exact ⟨rfl, _, rfl⟩
+    (step w op).1 = preload w op ∧ ∃ e, (step w op).2 = .err e :=
+  stepL_refused_unchanged (preload w op) op h
+
+/-- … which no observer can tell from the world before the call (reachable worlds), and which is the
+world before the call when every glyph is loaded. -/
+theorem refused_unchanged_observably (w : World) (hw : WInv w) (op : Op) (h : Op.refused op = true) :
+    ((step w op).1).Same w ∧ (w.Loaded → (step w op).1 = w) := by
+  rw [(refused_unchanged w op h).1]
+  exact ⟨preload_same hw op, fun hl => preload_of_loaded hl op⟩
 
 /-- … and the error is the one Python raises: ValueError from `list.remove` for a point that is not in
-the contour the call names (whenever the glyph has a contour at all). -/
-theorem rmAbsentPoint_valueError (w : World) (t rc : Nat) (h : (w.get t).contours ≠ []) :
-    step w (.rmAbsentPoint t rc) = (w, .err .value) := by
-  simp only [step, pick]
-  have : (w.get t).contours.length ≠ 0 := fun h0 => h (List.length_eq_zero_iff.mp h0)
+the contour the call names (whenever the glyph, its contours loaded, has a contour at all). -/
+theorem rmAbsentPoint_valueError (w : World) (t rc : Nat) (h : ((w.load t).get t).contours ≠ []) :
+    step w (.rmAbsentPoint t rc) = (w.load t, .err .value) := by
+  simp only [step, preload, stepL, pick]
+  have : ((w.load t).get t).contours.length ≠ 0 := fun h0 => h (List.length_eq_zero_iff.mp h0)
   simp [this]
 
 /-- An assignment `glyph.anchors = [...]` / `container.guidelines = [...]` of dicts that is cut short by
@@ -390,11 +316,11 @@ theorem setDictsBad_as_valid_prefix (w : World) (t : Nat) (vs : List (Option Id)
     (step w (.setGuidesBad t vs)).1 = (step w (.setGuides t vs)).1 ∧
     (step w (.setGuidesBad t vs)).2 ≠ .ok := by
   refine ⟨rfl, ?_, rfl, ?_⟩
-  · simp only [step]
+  · simp only [step, preload, stepL]
     split
     · intro hh; cases hh
     · rename_i hne; exact fun hh => hne (by rw [hh])
-  · simp only [step]
+  · simp only [step, preload, stepL]
     split
     · intro hh; cases hh
     · rename_i hne; exact fun hh => hne (by rw [hh])
@@ -576,5 +502,151 @@ theorem remove_no_keyError (g : Glyph) (h : Inv g) (i j : Nat) :
   ⟨(removeContour_spec h i).2, (removeComp_spec h i).2, (removeAnchor_spec h i).2,
    (removeGuide_spec h i).2, removePoint_no_keyError h i j, (clearContours_spec h i).2,
    (clearComps_spec h i).2, (clearAnchors_spec h i).2, (clearGuides_spec h i).2⟩
+
+/-! ## 6. Lazily loaded (shallow) contours: their identifiers are in use, and loading them is invisible -/
+
+/-- `deepen_invisible`: fully loading the contours of a glyph (`Glyph._fullyLoadShallowLoadedContours`, run by
+any read access: `len`, iteration, indexing, `in`, `contourIndex`) in a container that satisfies the invariant
+changes neither the objects — the contours and points that come out are the records that went in, with their
+identifiers; components, anchors, guidelines, staged and abandoned objects are not touched — nor the set of
+registered identifiers (the reservations are discarded and registered again: `identifiers` is a set, only its
+listing order may change), nor, hence, the identifiers in use; the invariant is kept, and the glyph is loaded. -/
+theorem deepen_invisible (g : Glyph) (h : Inv g) :
+    (deepen g).Same g ∧ (deepen g).carried = g.carried ∧ (deepen g).held = g.held ∧
+    Inv (deepen g) ∧ (deepen g).shallow = false := by
+  have hs := deepen_same h
+  refine ⟨hs, ?_, ?_, inv_deepen h, deepen_shallow g⟩
+  · simp only [Glyph.carried, hs.contours, hs.comps, hs.anchors, hs.guides]
+  · simp only [Glyph.held, Glyph.carried, Glyph.stagedIds, hs.contours, hs.comps, hs.anchors, hs.guides, hs.cur,
+      hs.stC, hs.stK, hs.stA, hs.stG, hs.leaked]
+
+/-- The read access itself cannot fail: in a container that satisfies the invariant the pen that loads the
+records never meets an identifier that is taken (`Contour.identifier = …` / `Contour.insertPoint` assert it),
+whatever else is registered — anchors, guidelines, components, contours being drawn, leaked identifiers. -/
+theorem deepen_never_rejects (g : Glyph) (h : Inv g) :
+    ∃ r, loadContours (discardAll g.reg (g.contours.flatMap Contour.ids)) [] g.contours = some r :=
+  Ident.deepen_never_rejects h
+
+/-- `load_invisible`, for histories: after any operation sequence, looking at the contours of any glyph
+(`len(glyph)`) succeeds, leaves every container with the same objects and the same registered identifiers,
+and the glyph's contours are loaded afterwards. -/
+theorem load_invisible (ops : List Op) (t : Nat) :
+    (step (run {} ops) (.load t)).2 = .ok ∧ ((step (run {} ops) (.load t)).1).Same (run {} ops) ∧
+    (t < (run {} ops).conts.length → (((step (run {} ops) (.load t)).1).get t).shallow = false) :=
+  ⟨rfl, load_same (inv_reachable ops) t, load_loads _ t⟩
+
+/-- Before anything else an operation loads the glyphs whose contours it looks at first; in every reachable
+world that changes nothing an observer can tell, and in a world whose glyphs are all loaded it changes nothing
+at all.  Hence every operation of the model — clear, clearContours, setDataFromSerialization, copyDataFromGlyph,
+drawing from and into, insertContour, removeContour, decomposeComponent, reloadGlyphs, insertGlyph … — can be
+the FIRST touch of a shallow glyph, and the theorems above (stated over `step`) speak about exactly that. -/
+theorem preload_invisible (ops : List Op) (op : Op) :
+    (preload (run {} ops) op).Same (run {} ops) ∧ ((run {} ops).Loaded → preload (run {} ops) op = run {} ops) :=
+  ⟨preload_same (inv_reachable ops) op, fun hl => preload_of_loaded hl op⟩
+
+/-- The loaded twin, exactly: an operation whose first action is a read access to the contours of glyph `t`
+(`insertContour`, `removeContour`, `clearContours`, `clear`, `reloadGlyphs`, every call that names a contour by its
+index, `len(glyph)`) has the same result and leaves the same world — not just an indistinguishable one — whether
+glyph `t` was still shallow or had been loaded beforehand. -/
+theorem loaded_twin_exact (w : World) (op : Op) (t : Nat) (h : Op.looksFirst op = some t) :
+    step (w.load t) op = step w op := step_load_eq w op t h
+
+/-- The identifiers reserved by contours that are still shallow count as in use: in every reachable state, every
+identifier of a shallow record (the contour's own, its points') is registered, and nothing else in the container
+— no other record, no component, anchor or guideline — carries it. -/
+theorem shallow_reserved_in_use (ops : List Op) (g : Glyph) (hg : g ∈ (run {} ops).conts)
+    (c : Contour) (hc : c ∈ g.contours) (x : Id) (hx : x ∈ c.ids) :
+    x ∈ g.reg ∧ g.carried.count x = 1 := by
+  have h := carried_unique_and_registered ops g hg
+  have hm : x ∈ g.carried := by
+    unfold Glyph.carried
+    simp only [List.mem_append, List.mem_flatMap]
+    exact Or.inl (Or.inl (Or.inl ⟨c, hc, hx⟩))
+  exact ⟨h.2 x hm, by rw [h.1.count]; simp [hm]⟩
+
+/-- `clear_releases` (the seeded fault C10-9, ruled out for the model): `glyph.clearContours()` — the first
+statement of `glyph.clear()` and of `glyph.setDataFromSerialization()` too — in any world that satisfies the
+invariant, on a glyph whose contours are loaded or still shallow: the call succeeds, the glyph has no contour
+left and is loaded, and every identifier that its contours or their points carried (reserved, for shallow ones) is
+free again — the same outline can be drawn anew. -/
+theorem clear_releases (w : World) (hw : WInv w) (t : Nat) (ht : t < w.conts.length) :
+    (step w (.clearContours t)).2 = .ok ∧ ((step w (.clearContours t)).1.get t).contours = [] ∧
+    ((step w (.clearContours t)).1.get t).shallow = false ∧
+    ∀ c ∈ (w.get t).contours, ∀ x ∈ c.ids, x ∉ ((step w (.clearContours t)).1.get t).reg := by
+  have hd := deepen_invisible (w.get t) (winv_get hw t)
+  have hlen : t < (w.load t).conts.length := by simp [World.load, World.put, ht]
+  have hget : (w.load t).get t = deepen (w.get t) := by
+    unfold World.load; rw [get_put]; simp [ht]
+  have hstep : (step w (.clearContours t)).1.get t
+      = (clearContours (deepen (w.get t)).contours.length (deepen (w.get t))).1 := by
+    simp only [step, preload, stepL, hget]
+    have := get_put (w.load t) t t (clearContours (deepen (w.get t)).contours.length (deepen (w.get t))).1
+    simp only [hlen, and_self, if_true] at this
+    exact this
+  have hres : (step w (.clearContours t)).2
+      = (clearContours (deepen (w.get t)).contours.length (deepen (w.get t))).2.1 := by
+    simp only [step, preload, stepL, hget]
+  have hall := clearContours_all hd.2.2.2.1 (deepen (w.get t)).contours.length (Nat.le_refl _)
+  have hfr := frame_clearContours (deepen (w.get t)).contours.length (deepen (w.get t))
+  have haux := aux_clearContours (deepen (w.get t)).contours.length (deepen (w.get t))
+  have hinv := inv_clearContours hd.2.2.2.1 (deepen (w.get t)).contours.length
+  have hnil : (clearContours (deepen (w.get t)).contours.length (deepen (w.get t))).1.contours = [] :=
+    List.length_eq_zero_iff.mp (by rw [hall.1]; omega)
+  rw [hstep, hres]
+  refine ⟨hall.2, hnil, hfr.2.2.2.trans hd.2.2.2.2, ?_⟩
+  intro c hc x hx hreg
+  -- `x` is held by a contour of the glyph before the call, hence by nothing else; afterwards nothing holds it
+  have h1 := hinv.exact x
+  rw [ind_of_mem hreg] at h1
+  have h0 := (winv_get hw t).ex.le_one x
+  have hcs : 0 < cntCs x (w.get t).contours := by
+    rw [cntCs_eq_count]
+    exact List.count_pos_iff.mpr (List.mem_flatMap.mpr ⟨c, hc, hx⟩)
+  unfold Glyph.aux at haux
+  simp only [Prod.mk.injEq] at haux
+  have hs := hd.1
+  simp only [Glyph.cnt, hnil, cntCs_nil, hfr.1, hfr.2.1, hfr.2.2.1, haux.1, haux.2.1, haux.2.2.1, haux.2.2.2.1,
+    haux.2.2.2.2.1, haux.2.2.2.2.2, hs.comps, hs.anchors, hs.guides, hs.cur, hs.stC, hs.stK, hs.stA, hs.stG,
+    hs.leaked] at h1
+  simp only [Glyph.cnt] at h0
+  omega
+
+-- non-vacuity: a UFO is opened (glyph 0: contour 1 with points 2 and none; anchor 3), the contours stay shallow
+-- while an anchor is refused identifier 2 (reserved) and accepted with 4; then the first touch
+private def d0 : Data := { contours := [⟨some 1, [⟨.line, some 2⟩, ⟨.line, none⟩]⟩], anchors := [some 3] }
+example : ((run {} [.reopen [d0, {}, {}] [] none]).get 0).shallow = true := by decide
+example : (step (run {} [.reopen [d0, {}, {}] [] none]) (.insAnchor 0 0 (some 2) true)).2 = .err .assertion := by decide
+example : ((run {} [.reopen [d0, {}, {}] [] none, .insAnchor 0 0 (some 4) true]).get 0).shallow = true := by decide
+-- clearContours as the first touch: the reservations 1 and 2 are released, the outline can be drawn again
+example : ((run {} [.reopen [d0, {}, {}] [] none, .clearContours 0]).get 0).reg = [3] := by decide
+example : (step (run {} [.reopen [d0, {}, {}] [] none, .clearContours 0])
+    (.draw 0 d0.contours [] false)).2 = .ok := by decide
+-- setDataFromSerialization of the shallow glyph 0 into glyph 1: glyph 1 is shallow too and has reserved 1 and 2
+example : ((run {} [.reopen [d0, {}, {}] [] none, .deserializeFrom 1 0]).get 1).shallow = true ∧
+    ((run {} [.reopen [d0, {}, {}] [] none, .deserializeFrom 1 0]).get 1).reg = [1, 2, 3] := by decide
+-- a rejected insertContour is the first touch: the glyph is loaded, nothing else changes
+example : (step (run {} [.reopen [d0, {}, {}] [] none]) (.insContour 0 0 ⟨some 2, []⟩)).2 = .err .assertion ∧
+    ((step (run {} [.reopen [d0, {}, {}] [] none]) (.insContour 0 0 ⟨some 2, []⟩)).1.get 0).shallow = false := by decide
+-- refused calls as the first touch: a stranger Point handed to `removePoint` (the contour is fetched: the glyph is
+-- loaded), a detached contour (removed from glyph 1) handed to the shallow glyph 0's `removeContour`
+example : (step (run {} [.reopen [d0, {}, {}] [] none]) (.rmAbsentPoint 0 0)).2 = .err .value ∧
+    ((step (run {} [.reopen [d0, {}, {}] [] none]) (.rmAbsentPoint 0 0)).1.get 0).shallow = false := by decide
+example : (step (run {} [.reopen [d0, d0, {}] [] none, .rmContour 1 0]) (.rmAbsent 0 0 0)).2 = .err .index ∧
+    ((run {} [.reopen [d0, d0, {}] [] none, .rmContour 1 0]).get 0).shallow = true ∧
+    ((step (run {} [.reopen [d0, d0, {}] [] none, .rmContour 1 0]) (.rmAbsent 0 0 0)).1.get 0).shallow = false ∧
+    ((step (run {} [.reopen [d0, d0, {}] [] none, .rmContour 1 0]) (.rmAbsent 0 0 0)).1.get 0).reg = [3, 1, 2] := by
+  decide
+-- drawing into a shallow glyph: identifier 2 is reserved, the pen skips it; the glyph is loaded at the first endPath
+example : ((run {} [.reopen [d0, {}, {}] [] none, .draw 0 [⟨some 5, [⟨.line, some 2⟩]⟩] [] true]).get 0).contours
+    = [⟨some 1, [⟨.line, some 2⟩, ⟨.line, none⟩]⟩, ⟨some 5, [⟨.line, none⟩]⟩] ∧
+    ((run {} [.reopen [d0, {}, {}] [] none, .draw 0 [⟨some 5, [⟨.line, some 2⟩]⟩] [] true]).get 0).shallow = false := by
+  decide
+-- a drawing that only adds a component never looks at the contours: the glyph stays shallow
+example : ((run {} [.reopen [d0, {}, {}] [] none, .draw 0 [] [⟨9, some 6⟩] false]).get 0).shallow = true := by decide
+example : Op.looksFirst (.clearContours 0) = some 0 ∧
+    (((run {} [.reopen [d0, {}, {}] [] none]).load 0).get 0).shallow = false ∧
+    ((run {} [.reopen [d0, {}, {}] [] none]).get 0).shallow = true := by decide
+example : Clean {} [.reopen [d0, {}, {}] [] none, .insAnchor 0 0 (some 4) true, .drawFrom 1 0 false,
+    .insertGlyphVia 1 0, .copyFrom 2 0, .clearGlyph 0, .load 1, .roundtrip 1] := by decide
 
 end DefconModel.Props.C10
